@@ -308,7 +308,7 @@ def case_e2e(seed, out, spec):
     nplug = r.randrange(2, 4)
     faulty = r.randrange(nplug)
     what = r.pick(['resource', 'shutdown', 'ctor', 'inactive', 'resource+shutdown'])
-    arg = {'nplug': nplug, 'faulty': faulty, 'what': what}
+    arg = {'nplug': nplug, 'faulty': faulty, 'what': what, 'first': r.chance(0.5)}
     res = e2e.call_child('vf.props.c20', 'child_e2e', arg, timeout=120)
     replay = replay_spec(spec, seed)
     if res.get('inconclusive'):
@@ -349,7 +349,7 @@ def child_e2e(arg):
     cfg = {}
     for i in range(arg['nplug']):
         bad = i == arg['faulty']
-        plugins.make('E2e%d' % i, ['res', 'dec'], order=i, attrs={'p%d' % i: 'v'},
+        plugins.make('E2e%d' % i, ['res', 'dec'], order=(-5 if (bad and arg.get('first')) else i), attrs={'p%d' % i: 'v'},
                      fail_ctor=bad and arg['what'] == 'ctor')
         names.append('vf.plugins.E2e%d' % i)
         if bad and arg['what'] == 'inactive':
